@@ -116,3 +116,47 @@ package remedies
 //@   modifies nothing
 //@   ensures[ungrouped-without-allocation] remedyConfig.GroupQuotaAllocation == nil ==> result1 == limit.Ungrouped && result0 == limit.UngroupedLimit
 //@   ensures[own-group-key] remedyConfig.GroupQuotaAllocation != nil ==> result1 == limit.Grouped && result0 == strings.ToLower(groupHeaderName) + ":" + strings.TrimSpace(obfuscator.ObfuscateString(headerValue))
+
+// ---------------------------------------------------------------- C09: the throttling remedy asks its own counter and obeys its verdict
+// ghost record of the call to the rate-limit state made on behalf of this request (the state itself is proved in utils/limit)
+//@ ghost var gTried bool
+//@ ghost var gTryBlocked bool
+//@ ghost var gTryLimiter string
+//@ ghost var gTryGrouping limit.Grouping
+//@ ghost var gTryGroup limit.GroupID
+//@ ghost var gTryAllowed int64
+//@ ghost var gTryWindow int64
+//@ ghost var gTryRatio float64
+//@ iface IncrementableRateLimitState.TryToIncrement
+//@   params requestArgs, windowSize
+//@   modifies gTried, gTryBlocked, gTryLimiter, gTryGrouping, gTryGroup, gTryAllowed, gTryWindow, gTryRatio, now
+//@   ensures gTried && (gTryBlocked <==> result0.LimitSate == limit.Block) && gTryLimiter == requestArgs.LimiterID && gTryGrouping == requestArgs.Grouping && gTryGroup == requestArgs.GroupID
+//@   ensures gTryAllowed == windowSize.AllowedRequestCount && gTryWindow == windowSize.WindowSize && gTryRatio == windowSize.QuotaAllocationRatio
+//@ pure GroupQuotaAllocation.DefaultBehavior
+
+// (a header that is absent reads as the empty string, as in Go; a spec-level m[k] is the raw stored value)
+// the share of a group: the first entry of the allocation table whose header value is the request's group header value
+//@ ghost func groupMatches(cfg *sharedConfig.StrategyBasedThrottlingConfig, r lunarMessages.OnRequest, j int) bool = cfg.GroupQuotaAllocation.Groups[j].GroupHeaderValue == ite(in(cfg.GroupQuotaAllocation.GroupBy.HeaderName, r.Headers), r.Headers[cfg.GroupQuotaAllocation.GroupBy.HeaderName], "")
+//@ func getQuotaAllocationRatio
+//@   prop C09
+//@   requires remedyConfig != nil && remedyConfig.GroupQuotaAllocation != nil && remedyConfig.GroupQuotaAllocation.GroupBy != nil
+//@   modifies nothing
+//@   loop 1 invariant[none-so-far] forall(j, 0, idx1, !groupMatches(remedyConfig, onRequest, j))
+//@   ensures[found-iff-listed] result1 <==> exists(j, 0, len(remedyConfig.GroupQuotaAllocation.Groups), groupMatches(remedyConfig, onRequest, j))
+//@   ensures[share-of-own-group] result1 ==> exists(j, 0, len(remedyConfig.GroupQuotaAllocation.Groups), groupMatches(remedyConfig, onRequest, j) && result0 == remedyConfig.GroupQuotaAllocation.Groups[j].AllocationPercentage / 100.0 && forall(m, 0, j, !groupMatches(remedyConfig, onRequest, m)))
+
+//@ func (*StrategyBasedThrottlingPlugin).OnRequest
+//@   prop C09
+//@   requires plugin != nil && plugin.definedQuotas != nil && plugin.rateLimitState != nil && scopedRemedy.Remedy != nil && scopedRemedy.Remedy.Config.StrategyBasedThrottling != nil
+//@   requires scopedRemedy.Remedy.Config.StrategyBasedThrottling.GroupQuotaAllocation != nil ==> scopedRemedy.Remedy.Config.StrategyBasedThrottling.GroupQuotaAllocation.GroupBy != nil
+//@   allocates map, NoOpAction, EarlyResponseAction
+//@   modifies mapof(plugin.definedQuotas), gTried, gTryBlocked, gTryLimiter, gTryGrouping, gTryGroup, gTryAllowed, gTryWindow, gTryRatio, now
+//@   on entry do gTried = false
+//@   ensures[allowed-or-rejected] result1 == nil ==> typeis(result0, *actions.NoOpAction) || typeis(result0, *actions.EarlyResponseAction)
+//@   ensures[rejected-with-the-configured-status] result1 == nil && typeis(result0, *actions.EarlyResponseAction) ==> result0.(*actions.EarlyResponseAction).Status == ite(remedyConfig.ResponseStatusCode != 0, remedyConfig.ResponseStatusCode, 429)
+//@   ensures[obeys-the-counter] result1 == nil && gTried ==> (gTryBlocked <==> typeis(result0, *actions.EarlyResponseAction))
+//@   ensures[rejected-only-when-share-used-up] result1 == nil && typeis(result0, *actions.EarlyResponseAction) ==> (gTried && gTryBlocked) || (remedyConfig.GroupQuotaAllocation != nil && !gTried && remedyConfig.GroupQuotaAllocation.DefaultBehavior() == sharedConfig.DefaultQuotaGroupBehaviorBlock)
+//@   ensures[own-remedy-own-group] gTried ==> gTryLimiter == scopedRemedy.Remedy.Name && gTryGroup == groupID && gTryGrouping == grouping
+//@   ensures[ungrouped-without-allocation] gTried && remedyConfig.GroupQuotaAllocation == nil ==> gTryGroup == limit.UngroupedLimit && gTryGrouping == limit.Ungrouped && gTryRatio == 1.0
+//@   ensures[configured-window] gTried ==> gTryAllowed == remedyConfig.AllowedRequestCount && gTryWindow == remedyConfig.WindowSizeInSeconds * 1000000000
+//@   ensures[share-of-own-group] gTried && remedyConfig.GroupQuotaAllocation != nil ==> (exists(j, 0, len(remedyConfig.GroupQuotaAllocation.Groups), groupMatches(remedyConfig, onRequest, j) && gTryRatio == remedyConfig.GroupQuotaAllocation.Groups[j].AllocationPercentage / 100.0 && forall(m, 0, j, !groupMatches(remedyConfig, onRequest, m)))) || (forall(j, 0, len(remedyConfig.GroupQuotaAllocation.Groups), !groupMatches(remedyConfig, onRequest, j)) && (remedyConfig.GroupQuotaAllocation.DefaultBehavior() == sharedConfig.DefaultQuotaGroupBehaviorUseDefaultAllocation ==> gTryRatio == remedyConfig.GroupQuotaAllocation.DefaultAllocationPercentage / 100.0))
